@@ -28,6 +28,9 @@ Fixpoint zlist_eqb (a b : list Z) : bool :=
 
 Definition zpair_eqb (a b : Z * Z) : bool := (fst a =? fst b) && (snd a =? snd b).
 
+Definition ztriple_eqb (a b : Z * Z * Z) : bool :=
+  (fst (fst a) =? fst (fst b)) && (snd (fst a) =? snd (fst b)) && (snd a =? snd b).
+
 Definition x_outcome {A} (eqb : A -> A -> bool) (o : outcome A) (e : xout A) : bool :=
   match o, e with
   | Ok a, XOk b => eqb a b
@@ -88,4 +91,11 @@ Proof.
   cbn [filter snd] in H. destruct b0; cbn [negb] in H.
   - destruct Hin as [E|Hin]; [congruence | eapply IH; eauto].
   - discriminate.
+Qed.
+
+Lemma ztriple_eqb_eq a b : ztriple_eqb a b = true <-> a = b.
+Proof.
+  destruct a as [[a1 a2] a3], b as [[b1 b2] b3]; unfold ztriple_eqb; cbn [fst snd].
+  rewrite !andb_true_iff, !Z.eqb_eq.
+  split; [intros [[-> ->] ->]; reflexivity | intros H; injection H as -> -> ->; repeat split].
 Qed.
